@@ -220,6 +220,8 @@ impl TypeChecker {
         self.tree(&modules)?;
         self.force_filtermap_types(&modules);
 
+        #[cfg(feature = "verif-hooks")]
+        crate::verif_hooks::c14::record(self.verif_c14_dump());
         let order = self.find_compilation_order()?;
         Ok((self.type_info, order))
     }
